@@ -162,7 +162,7 @@ func runC06(raw json.RawMessage) (interface{}, error) {
 		return nil, err
 	}
 	mode := map[string]string{"healthy": "read", "slow_reader": "slow", "absent": "read", "absent_then_up": "read", "blackhole": "blackhole",
-		"close_midstream": "read", "close_then_traffic": "read", "close_under_traffic": "read", "two_dests": "blackhole", "spool_backlog_blackhole": "blackhole"}[c.Scenario]
+		"close_midstream": "read", "close_then_traffic": "read", "close_under_traffic": "read", "repoint_blackholed": "blackhole", "two_dests": "blackhole", "spool_backlog_blackhole": "blackhole"}[c.Scenario]
 	ep, err := newEndpoint(mode, false)
 	if err != nil {
 		return nil, err
@@ -246,6 +246,7 @@ func runC06(raw json.RawMessage) (interface{}, error) {
 		return nil, fmt.Errorf("second destination did not come online")
 	}
 	var maxDispatchNs int64
+	var oldKeys []string
 	seq := 0
 	stalled := false
 	// the hand-off runs in its own goroutine so that a call that never returns is reported (as a very slow call) instead of hanging the harness
@@ -365,6 +366,36 @@ func runC06(raw json.RawMessage) (interface{}, error) {
 			return nil, fmt.Errorf("destination did not reconnect")
 		}
 		phase("up", c.N, d, ep, upSettled(d, ep, c.N))
+	case "repoint_blackholed":
+		// the endpoint accepts and never reads until the writer is stuck in the socket; then the admin re-points the destination
+		// to a healthy endpoint (modDest addr=...): the update returns, dispatch stays bounded, traffic reaches the new endpoint
+		ep3, err := newEndpoint("read", false)
+		if err != nil {
+			return nil, err
+		}
+		defer ep3.down()
+		if err := ep3.up(); err != nil {
+			return nil, err
+		}
+		phase("transition", c.N, d, ep, func(snap) bool { return true })
+		time.Sleep(300 * time.Millisecond)
+		oldKeys = append(oldKeys, d.Key) // the destination's key (and with it its counters) follows its address
+		upd := make(chan error, 1)
+		go func() { upd <- r.UpdateDestination(0, map[string]string{"addr": ep3.addr}) }()
+		select {
+		case err := <-upd:
+			if err != nil {
+				return nil, err
+			}
+		case <-time.After(3 * time.Second):
+			stalled = true
+			atomic.StoreInt64(&maxDispatchNs, int64(3*time.Second))
+		}
+		if !stalled {
+			waitFor(3*time.Second, func() bool { return ep3.received() > 0 || d.Snapshot().Online })
+			time.Sleep(50 * time.Millisecond)
+			phase("up", 1000, d, ep3, upSettled(d, ep3, 1000))
+		}
 	case "close_then_traffic":
 		// the endpoint closes while the relay is idle and the reconnect period is long; after the conn has seen the EOF, the very
 		// next pass through the relay loop must retire it (the line that causes that pass still goes to the dead conn: the
@@ -401,8 +432,18 @@ func runC06(raw json.RawMessage) (interface{}, error) {
 		phase("up", c.N/4+1, d, ep, upSettled(d, ep, c.N/4+1))
 	}
 	out := []relayDest{}
-	for _, x := range dests {
-		out = append(out, relayDest{spool, hx(x.VerifLog(true)), destDropSlowConn(x.Key), destDropNoConn(x.Key), destDropSlowSpool(x.Key)})
+	for i, x := range dests {
+		rd := relayDest{spool, hx(x.VerifLog(true)), destDropSlowConn(x.Key), destDropNoConn(x.Key), destDropSlowSpool(x.Key)}
+		if i == 0 {
+			for _, k := range oldKeys {
+				if k != x.Key {
+					rd.Slow += destDropSlowConn(k)
+					rd.NoConn += destDropNoConn(k)
+					rd.SlowSpool += destDropSlowSpool(k)
+				}
+			}
+		}
+		out = append(out, rd)
 	}
 	go r.Shutdown() // may wait for ever on a black-holed connection
 	return map[string]interface{}{"phases": phases, "dests": out, "max_dispatch_us": time.Duration(atomic.LoadInt64(&maxDispatchNs)).Microseconds(), "stalled": stalled}, nil
